@@ -1,6 +1,975 @@
+/-
+  C10 — UnknownOperationResolver: every implicit operation becomes an explicit one (the chosen
+  kind, or in lucene mode AND / OR), nothing else changes but the `add_head` in front of the second
+  and later operands of the resolved operations; the meaning under "implicit = chosen kind" is kept.
+-/
 import Luqum.Model.Transform
+import Luqum.Props.C08
+
 namespace Luqum.Props.C10
 open Luqum
-theorem resolve_term (to : ResolveTo) (h : Str) (k : TermK) (v : Str) (l : Lay) :
-    resolve to h (.term k v l) = .term k v l.noName := rfl
+
+/-! ### specification -/
+
+mutual
+/-- **Specification of resolving to a fixed kind `k`**: every `UnknownOperation` becomes a
+`k`-operation whose second and later operands get `h` in front of their head; every other node is
+cloned (everything kept but the attached name). -/
+def relabel (k : OpK) (h : Str) : Tree → Tree
+  | .term k' v l => .term k' v l.noName
+  | .none l => .none l.noName
+  | .field n e l => .field n (relabel k h e) l.noName
+  | .group k' e l => .group k' (relabel k h e) l.noName
+  | .approx k' e n l => .approx k' (relabel k h e) n l.noName
+  | .boost e n l => .boost (relabel k h e) n l.noName
+  | .unary k' e l => .unary k' (relabel k h e) l.noName
+  | .orange k' e i l => .orange k' (relabel k h e) i l.noName
+  | .range a b il ih l => .range (relabel k h a) (relabel k h b) il ih l.noName
+  | .op .unk xs l => .op k (addHeads h (relabelList k h xs)) l.noName
+  | .op .and xs l => .op .and (relabelList k h xs) l.noName
+  | .op .or xs l => .op .or (relabelList k h xs) l.noName
+  | .op .bool xs l => .op .bool (relabelList k h xs) l.noName
+def relabelList (k : OpK) (h : Str) : List Tree → List Tree
+  | [] => []
+  | x :: r => relabel k h x :: relabelList k h r
+end
+
+theorem relabelList_eq_map (k : OpK) (h : Str) : ∀ xs, relabelList k h xs = xs.map (relabel k h)
+  | [] => rfl
+  | x :: r => by simp [relabelList, relabelList_eq_map k h r]
+
+mutual
+/-- the tree contains an `UnknownOperation` -/
+def hasUnk : Tree → Bool
+  | .term .. => false
+  | .none _ => false
+  | .field _ e _ => hasUnk e
+  | .group _ e _ => hasUnk e
+  | .approx _ e _ _ => hasUnk e
+  | .boost e _ _ => hasUnk e
+  | .unary _ e _ => hasUnk e
+  | .orange _ e _ _ => hasUnk e
+  | .range a b _ _ _ => hasUnk a || hasUnk b
+  | .op k xs _ => k == .unk || hasUnkList xs
+def hasUnkList : List Tree → Bool
+  | [] => false
+  | x :: r => hasUnk x || hasUnkList r
+end
+
+mutual
+/-- the tree contains an explicit `AndOperation` / `OrOperation` -/
+def hasAndOr : Tree → Bool
+  | .term .. => false
+  | .none _ => false
+  | .field _ e _ => hasAndOr e
+  | .group _ e _ => hasAndOr e
+  | .approx _ e _ _ => hasAndOr e
+  | .boost e _ _ => hasAndOr e
+  | .unary _ e _ => hasAndOr e
+  | .orange _ e _ _ => hasAndOr e
+  | .range a b _ _ _ => hasAndOr a || hasAndOr b
+  | .op k xs _ => k == .and || k == .or || hasAndOrList xs
+def hasAndOrList : List Tree → Bool
+  | [] => false
+  | x :: r => hasAndOr x || hasAndOrList r
+end
+
+/-- AND, OR and implicit operations are identified (BoolOperation is kept apart) -/
+def eraseK : OpK → OpK
+  | .bool => .bool
+  | _ => .and
+
+mutual
+/-- the tree with the kinds AND / OR / implicit of its operations identified; everything else,
+layout included, is kept -/
+def eraseOpKind : Tree → Tree
+  | .term k v l => .term k v l
+  | .none l => .none l
+  | .field n e l => .field n (eraseOpKind e) l
+  | .group k e l => .group k (eraseOpKind e) l
+  | .approx k e n l => .approx k (eraseOpKind e) n l
+  | .boost e n l => .boost (eraseOpKind e) n l
+  | .unary k e l => .unary k (eraseOpKind e) l
+  | .orange k e i l => .orange k (eraseOpKind e) i l
+  | .range a b il ih l => .range (eraseOpKind a) (eraseOpKind b) il ih l
+  | .op k xs l => .op (eraseK k) (eraseOpKinds xs) l
+def eraseOpKinds : List Tree → List Tree
+  | [] => []
+  | x :: r => eraseOpKind x :: eraseOpKinds r
+end
+
+/-- the fixed kind an explicit target stands for -/
+def opKOf : ResolveTo → OpK
+  | .and => .and
+  | .or => .or
+  | _ => .bool
+
+/-! ### helper lemmas: the head of a node is irrelevant to all the predicates above -/
+
+theorem hasUnk_setLay (t : Tree) (l : Lay) : hasUnk (t.setLay l) = hasUnk t := by
+  cases t <;> simp [Tree.setLay, hasUnk]
+
+theorem hasUnk_setHead (t : Tree) (x : Str) : hasUnk (t.setHead x) = hasUnk t := hasUnk_setLay _ _
+
+theorem hasUnkList_addHeads (h : Str) : ∀ xs, hasUnkList (addHeads h xs) = hasUnkList xs
+  | [] => rfl
+  | x :: r => by
+    simp only [addHeads, hasUnkList]
+    congr 1
+    induction r with
+    | nil => rfl
+    | cons y s ih => simp [hasUnkList, hasUnk_setHead, ih]
+
+theorem noNames_setLay (t : Tree) (l : Lay) (hl : l.name = none) (ht : C08.noNames t = true) :
+    C08.noNames (t.setLay l) = true := by
+  cases t <;> simp_all [Tree.setLay, C08.noNames]
+
+theorem noNames_lay {t : Tree} (ht : C08.noNames t = true) : t.lay.name = none := by
+  cases t <;> simp_all [Tree.lay, C08.noNames]
+
+theorem noNames_setHead (t : Tree) (x : Str) (ht : C08.noNames t = true) :
+    C08.noNames (t.setHead x) = true :=
+  noNames_setLay t _ (noNames_lay ht) ht
+
+theorem noNamesList_addHeads (h : Str) : ∀ xs, C08.noNamesList xs = true →
+    C08.noNamesList (addHeads h xs) = true
+  | [], _ => rfl
+  | x :: r, hx => by
+    simp only [addHeads, C08.noNamesList, Bool.and_eq_true] at hx ⊢
+    refine ⟨hx.1, ?_⟩
+    have := hx.2
+    clear hx
+    induction r with
+    | nil => rfl
+    | cons y s ih =>
+      simp only [C08.noNamesList, Bool.and_eq_true, List.map_cons] at this ⊢
+      exact ⟨noNames_setHead _ _ this.1, ih this.2⟩
+
+theorem eraseOpKind_setLay (t : Tree) (l : Lay) : eraseOpKind (t.setLay l) = (eraseOpKind t).setLay l := by
+  cases t <;> simp [Tree.setLay, eraseOpKind]
+
+theorem eraseOpKind_lay (t : Tree) : (eraseOpKind t).lay = t.lay := by
+  cases t <;> simp [Tree.lay, eraseOpKind]
+
+theorem eraseOpKind_setHead (t : Tree) (h : Str) :
+    eraseOpKind (t.setHead (h ++ t.head)) = (eraseOpKind t).setHead (h ++ (eraseOpKind t).head) := by
+  simp [Tree.setHead, Tree.head, eraseOpKind_setLay, eraseOpKind_lay]
+
+theorem eraseOpKinds_eq_map : ∀ xs, eraseOpKinds xs = xs.map eraseOpKind
+  | [] => rfl
+  | x :: r => by simp [eraseOpKinds, eraseOpKinds_eq_map r]
+
+theorem eraseOpKinds_addHeads (h : Str) : ∀ xs,
+    eraseOpKinds (addHeads h xs) = addHeads h (eraseOpKinds xs)
+  | [] => rfl
+  | x :: r => by
+    simp only [addHeads, eraseOpKinds, eraseOpKinds_eq_map, List.map_cons, List.map_map]
+    congr 1
+    apply List.map_congr_left
+    intro c _
+    exact eraseOpKind_setHead c h
+
+/-! ### 1. explicit targets: the transformer is `relabel` -/
+
+mutual
+theorem resolveNode_explicit (to : ResolveTo) (hto : to ≠ .lucene) (h : Str) :
+    ∀ (t : Tree) (d : Option RStore) (top : RKey) (path : List Nat),
+      resolveNode to h d top path t = (relabel (opKOf to) h t, d)
+  | .term .., d, top, path => rfl
+  | .none _, d, top, path => rfl
+  | .field n e l, d, top, path => by simp [resolveNode, relabel, resolveNode_explicit to hto h e]
+  | .group k e l, d, top, path => by simp [resolveNode, relabel, resolveNode_explicit to hto h e]
+  | .approx k e n l, d, top, path => by simp [resolveNode, relabel, resolveNode_explicit to hto h e]
+  | .boost e n l, d, top, path => by simp [resolveNode, relabel, resolveNode_explicit to hto h e]
+  | .unary k e l, d, top, path => by simp [resolveNode, relabel, resolveNode_explicit to hto h e]
+  | .orange k e i l, d, top, path => by simp [resolveNode, relabel, resolveNode_explicit to hto h e]
+  | .range a b il ih l, d, top, path => by
+    simp [resolveNode, relabel, resolveNode_explicit to hto h a, resolveNode_explicit to hto h b]
+  | .op k xs l, d, top, path => by
+    cases to <;> cases k <;>
+      simp_all [resolveNode, relabel, resolveList_explicit _ _ h xs, opKOf]
+theorem resolveList_explicit (to : ResolveTo) (hto : to ≠ .lucene) (h : Str) :
+    ∀ (xs : List Tree) (d : Option RStore) (top : RKey) (path : List Nat) (i : Nat),
+      resolveList to h d top path i xs = (relabelList (opKOf to) h xs, d)
+  | [], d, top, path, i => rfl
+  | x :: r, d, top, path, i => by
+    simp [resolveList, relabelList, resolveNode_explicit to hto h x, resolveList_explicit to hto h r]
+end
+
+/-- **For an explicit target the transformer is exactly `relabel`** (the `last_operation` store is
+neither read nor written). -/
+theorem resolve_explicit (to : ResolveTo) (hto : to ≠ .lucene) (h : Str) (t : Tree) :
+    resolve to h t = relabel (opKOf to) h t := by
+  simp [resolve, resolveNode_explicit to hto h t]
+
+example : resolve .or [' '] (.op .unk [.term .word ['a'] { tail := [' '] }, .term .word ['b'] {}] {})
+    = .op .or [.term .word ['a'] { tail := [' '] }, .term .word ['b'] { head := [' '] }] {} := rfl
+
+/-! ### 2. no implicit operation is left -/
+
+mutual
+theorem hasUnk_relabel (k : OpK) (hk : k ≠ .unk) (h : Str) : ∀ t : Tree, hasUnk (relabel k h t) = false
+  | .term .. => rfl
+  | .none _ => rfl
+  | .field n e l => by simp [relabel, hasUnk, hasUnk_relabel k hk h e]
+  | .group _ e l => by simp [relabel, hasUnk, hasUnk_relabel k hk h e]
+  | .approx _ e n l => by simp [relabel, hasUnk, hasUnk_relabel k hk h e]
+  | .boost e n l => by simp [relabel, hasUnk, hasUnk_relabel k hk h e]
+  | .unary _ e l => by simp [relabel, hasUnk, hasUnk_relabel k hk h e]
+  | .orange _ e i l => by simp [relabel, hasUnk, hasUnk_relabel k hk h e]
+  | .range a b il ih l => by simp [relabel, hasUnk, hasUnk_relabel k hk h a, hasUnk_relabel k hk h b]
+  | .op .unk xs l => by
+    simp [relabel, hasUnk, hasUnkList_addHeads, hasUnkList_relabel k hk h xs, hk]
+  | .op .and xs l => by simp [relabel, hasUnk, hasUnkList_relabel k hk h xs]
+  | .op .or xs l => by simp [relabel, hasUnk, hasUnkList_relabel k hk h xs]
+  | .op .bool xs l => by simp [relabel, hasUnk, hasUnkList_relabel k hk h xs]
+theorem hasUnkList_relabel (k : OpK) (hk : k ≠ .unk) (h : Str) :
+    ∀ xs : List Tree, hasUnkList (relabelList k h xs) = false
+  | [] => rfl
+  | x :: r => by simp [relabelList, hasUnkList, hasUnk_relabel k hk h x, hasUnkList_relabel k hk h r]
+end
+
+/-- the `last_operation` store only ever holds AND / OR -/
+def StoreOK (d : Option RStore) : Prop := ∀ e ∈ d.getD [], e.2 = OpK.and ∨ e.2 = OpK.or
+
+theorem storeOK_none : StoreOK none := by intro e he; simp at he
+
+theorem StoreOK.get {d : Option RStore} (hd : StoreOK d) (top : RKey) :
+    (d.getD []).get top = .and ∨ (d.getD []).get top = .or := by
+  unfold RStore.get
+  cases hf : (d.getD []).find? (fun e => e.1 == top) with
+  | none => simp
+  | some e => exact hd e (List.mem_of_find?_eq_some hf)
+
+theorem StoreOK.set {d : Option RStore} (hd : StoreOK d) (top : RKey) (k : OpK)
+    (hk : k = .and ∨ k = .or) : StoreOK (some ((d.getD []).set top k)) := by
+  intro e he
+  simp only [Option.getD_some, RStore.set, List.mem_cons, List.mem_filter] at he
+  rcases he with rfl | he
+  · exact hk
+  · exact hd e he.1
+
+theorem StoreOK.some_getD {d : Option RStore} (hd : StoreOK d) : StoreOK (some (d.getD [])) := by
+  simpa [StoreOK] using hd
+
+theorem StoreOK.ite {d s' : Option RStore} (hs : StoreOK s') :
+    StoreOK (if d.isSome then s' else none) := by
+  split
+  · exact hs
+  · exact storeOK_none
+
+theorem eraseK_of_andOr {k : OpK} (hk : k = .and ∨ k = .or) : eraseK k = .and := by
+  rcases hk with rfl | rfl <;> rfl
+
+mutual
+/-- lucene mode, all at once: no implicit operation is left, the result is `relabel` up to the
+choice between AND and OR, and the store invariant is kept -/
+theorem resolveNode_lucene (h : Str) :
+    ∀ (t : Tree) (d : Option RStore) (top : RKey) (path : List Nat), StoreOK d →
+      hasUnk (resolveNode .lucene h d top path t).1 = false
+      ∧ eraseOpKind (resolveNode .lucene h d top path t).1 = eraseOpKind (relabel .and h t)
+      ∧ StoreOK (resolveNode .lucene h d top path t).2
+  | .term .., d, top, path, hd => ⟨rfl, rfl, hd⟩
+  | .none _, d, top, path, hd => ⟨rfl, rfl, hd⟩
+  | .field n e l, d, top, path, hd => by
+    have ih := resolveNode_lucene h e d (childKey top path (.field n e l)) (path ++ [0]) hd
+    simpa [resolveNode, relabel, hasUnk, eraseOpKind] using ih
+  | .group k e l, d, top, path, hd => by
+    have ih := resolveNode_lucene h e d (childKey top path (.group k e l)) (path ++ [0]) hd
+    simpa [resolveNode, relabel, hasUnk, eraseOpKind] using ih
+  | .approx k e n l, d, top, path, hd => by
+    have ih := resolveNode_lucene h e d (childKey top path (.approx k e n l)) (path ++ [0]) hd
+    simpa [resolveNode, relabel, hasUnk, eraseOpKind] using ih
+  | .boost e n l, d, top, path, hd => by
+    have ih := resolveNode_lucene h e d (childKey top path (.boost e n l)) (path ++ [0]) hd
+    simpa [resolveNode, relabel, hasUnk, eraseOpKind] using ih
+  | .unary k e l, d, top, path, hd => by
+    have ih := resolveNode_lucene h e d (childKey top path (.unary k e l)) (path ++ [0]) hd
+    simpa [resolveNode, relabel, hasUnk, eraseOpKind] using ih
+  | .orange k e i l, d, top, path, hd => by
+    have ih := resolveNode_lucene h e d (childKey top path (.orange k e i l)) (path ++ [0]) hd
+    simpa [resolveNode, relabel, hasUnk, eraseOpKind] using ih
+  | .range a b il ih l, d, top, path, hd => by
+    have iha := resolveNode_lucene h a d (childKey top path (.range a b il ih l)) (path ++ [0]) hd
+    have ihb := resolveNode_lucene h b _ (childKey top path (.range a b il ih l)) (path ++ [1]) iha.2.2
+    simp only [resolveNode, relabel, hasUnk, eraseOpKind]
+    exact ⟨by rw [iha.1, ihb.1]; rfl, by rw [iha.2.1, ihb.2.1], ihb.2.2⟩
+  | .op .and xs l, d, top, path, hd => by
+    have ih := resolveList_lucene h xs _ top path 0 (hd.set top .and (Or.inl rfl))
+    simp only [resolveNode, relabel, hasUnk, eraseOpKind]
+    exact ⟨by rw [ih.1]; rfl, by rw [ih.2.1], StoreOK.ite ih.2.2⟩
+  | .op .or xs l, d, top, path, hd => by
+    have ih := resolveList_lucene h xs _ top path 0 (hd.set top .or (Or.inr rfl))
+    simp only [resolveNode, relabel, hasUnk, eraseOpKind]
+    exact ⟨by rw [ih.1]; rfl, by rw [ih.2.1], StoreOK.ite ih.2.2⟩
+  | .op .unk xs l, d, top, path, hd => by
+    have ih := resolveList_lucene h xs _ top path 0 hd.some_getD
+    have hk := hd.get top
+    simp only [resolveNode, relabel, hasUnk, eraseOpKind, hasUnkList_addHeads, eraseOpKinds_addHeads]
+    refine ⟨?_, by rw [ih.2.1, eraseK_of_andOr hk]; rfl, StoreOK.ite ih.2.2⟩
+    rw [ih.1]; rcases hk with hk | hk <;> rw [hk] <;> rfl
+  | .op .bool xs l, d, top, path, hd => by
+    have ih := resolveList_lucene h xs d top path 0 hd
+    simp only [resolveNode, relabel, hasUnk, eraseOpKind]
+    exact ⟨by rw [ih.1]; rfl, by rw [ih.2.1], ih.2.2⟩
+theorem resolveList_lucene (h : Str) :
+    ∀ (xs : List Tree) (d : Option RStore) (top : RKey) (path : List Nat) (i : Nat), StoreOK d →
+      hasUnkList (resolveList .lucene h d top path i xs).1 = false
+      ∧ eraseOpKinds (resolveList .lucene h d top path i xs).1 = eraseOpKinds (relabelList .and h xs)
+      ∧ StoreOK (resolveList .lucene h d top path i xs).2
+  | [], d, top, path, i, hd => ⟨rfl, rfl, hd⟩
+  | x :: r, d, top, path, i, hd => by
+    have ih1 := resolveNode_lucene h x d top (path ++ [i]) hd
+    have ih2 := resolveList_lucene h r _ top path (i + 1) ih1.2.2
+    simp only [resolveList, relabelList, hasUnkList, eraseOpKinds]
+    exact ⟨by rw [ih1.1, ih2.1]; rfl, by rw [ih1.2.1, ih2.2.1], ih2.2.2⟩
+end
+
+/-- **No `UnknownOperation` is left**, whatever the target. -/
+theorem no_unknown_left (to : ResolveTo) (h : Str) (t : Tree) : hasUnk (resolve to h t) = false := by
+  by_cases hto : to = .lucene
+  · subst hto; exact (resolveNode_lucene h t none none [] storeOK_none).1
+  · rw [resolve_explicit to hto]
+    exact hasUnk_relabel _ (by cases to <;> simp_all [opKOf]) h t
+
+/-! ### 3. lucene mode -/
+
+/-- **lucene mode: the result is `relabel` up to the choice between AND and OR for each resolved
+operation** — same nodes, same layout, same added heads; explicit operations keep their kind up to
+the identification too (in fact exactly, see `resolve_lucene_noUnk`). -/
+theorem resolve_lucene_skeleton (h : Str) (t : Tree) :
+    eraseOpKind (resolve .lucene h t) = eraseOpKind (relabel .and h t) :=
+  (resolveNode_lucene h t none none [] storeOK_none).2.1
+
+mutual
+/-- without explicit AND / OR the store stays empty and every implicit operation becomes the
+default (AND) -/
+theorem resolveNode_lucene_noAndOr (h : Str) :
+    ∀ (t : Tree) (d : Option RStore) (top : RKey) (path : List Nat), d.getD [] = [] →
+      hasAndOr t = false →
+      (resolveNode .lucene h d top path t).1 = relabel .and h t
+        ∧ (resolveNode .lucene h d top path t).2.getD [] = []
+  | .term .., d, top, path, hd, _ => ⟨rfl, hd⟩
+  | .none _, d, top, path, hd, _ => ⟨rfl, hd⟩
+  | .field n e l, d, top, path, hd, ht => by
+    have ih := resolveNode_lucene_noAndOr h e d (childKey top path (.field n e l)) (path ++ [0]) hd
+      (by simpa [hasAndOr] using ht)
+    simpa [resolveNode, relabel] using ih
+  | .group k e l, d, top, path, hd, ht => by
+    have ih := resolveNode_lucene_noAndOr h e d (childKey top path (.group k e l)) (path ++ [0]) hd
+      (by simpa [hasAndOr] using ht)
+    simpa [resolveNode, relabel] using ih
+  | .approx k e n l, d, top, path, hd, ht => by
+    have ih := resolveNode_lucene_noAndOr h e d (childKey top path (.approx k e n l)) (path ++ [0]) hd
+      (by simpa [hasAndOr] using ht)
+    simpa [resolveNode, relabel] using ih
+  | .boost e n l, d, top, path, hd, ht => by
+    have ih := resolveNode_lucene_noAndOr h e d (childKey top path (.boost e n l)) (path ++ [0]) hd
+      (by simpa [hasAndOr] using ht)
+    simpa [resolveNode, relabel] using ih
+  | .unary k e l, d, top, path, hd, ht => by
+    have ih := resolveNode_lucene_noAndOr h e d (childKey top path (.unary k e l)) (path ++ [0]) hd
+      (by simpa [hasAndOr] using ht)
+    simpa [resolveNode, relabel] using ih
+  | .orange k e i l, d, top, path, hd, ht => by
+    have ih := resolveNode_lucene_noAndOr h e d (childKey top path (.orange k e i l)) (path ++ [0]) hd
+      (by simpa [hasAndOr] using ht)
+    simpa [resolveNode, relabel] using ih
+  | .range a b il ih l, d, top, path, hd, ht => by
+    simp only [hasAndOr, Bool.or_eq_false_iff] at ht
+    have iha := resolveNode_lucene_noAndOr h a d (childKey top path (.range a b il ih l)) (path ++ [0])
+      hd ht.1
+    have ihb := resolveNode_lucene_noAndOr h b _ (childKey top path (.range a b il ih l)) (path ++ [1])
+      iha.2 ht.2
+    simp only [resolveNode, relabel]
+    exact ⟨by rw [iha.1, ihb.1], ihb.2⟩
+  | .op .and xs l, d, top, path, hd, ht => by simp [hasAndOr] at ht
+  | .op .or xs l, d, top, path, hd, ht => by simp [hasAndOr] at ht
+  | .op .unk xs l, d, top, path, hd, ht => by
+    have ih := resolveList_lucene_noAndOr h xs (some (d.getD [])) top path 0 (by simpa using hd)
+      (by simpa [hasAndOr] using ht)
+    simp only [resolveNode, relabel]
+    refine ⟨by rw [ih.1, hd]; rfl, ?_⟩
+    split
+    · exact ih.2
+    · rfl
+  | .op .bool xs l, d, top, path, hd, ht => by
+    have ih := resolveList_lucene_noAndOr h xs d top path 0 hd (by simpa [hasAndOr] using ht)
+    simp only [resolveNode, relabel]
+    exact ⟨by rw [ih.1], ih.2⟩
+theorem resolveList_lucene_noAndOr (h : Str) :
+    ∀ (xs : List Tree) (d : Option RStore) (top : RKey) (path : List Nat) (i : Nat),
+      d.getD [] = [] → hasAndOrList xs = false →
+      (resolveList .lucene h d top path i xs).1 = relabelList .and h xs
+        ∧ (resolveList .lucene h d top path i xs).2.getD [] = []
+  | [], d, top, path, i, hd, _ => ⟨rfl, hd⟩
+  | x :: r, d, top, path, i, hd, ht => by
+    simp only [hasAndOrList, Bool.or_eq_false_iff] at ht
+    have ih1 := resolveNode_lucene_noAndOr h x d top (path ++ [i]) hd ht.1
+    have ih2 := resolveList_lucene_noAndOr h r _ top path (i + 1) ih1.2 ht.2
+    simp only [resolveList, relabelList]
+    exact ⟨by rw [ih1.1, ih2.1], ih2.2⟩
+end
+
+/-- **lucene mode on a tree without explicit AND / OR is resolving everything to AND** -/
+theorem resolve_lucene_noAndOr (h : Str) (t : Tree) (ht : hasAndOr t = false) :
+    resolve .lucene h t = relabel .and h t :=
+  (resolveNode_lucene_noAndOr h t none none [] rfl ht).1
+
+/-- lucene mode proper: an implicit operation takes the kind of the last explicit operation seen
+(in document order) under the same top-most non-operation ancestor -/
+example : resolve .lucene []
+      (.op .or [.term .word ['a'] {}, .op .unk [.term .word ['b'] {}, .term .word ['c'] {}] {}] {})
+    = .op .or [.term .word ['a'] {}, .op .or [.term .word ['b'] {}, .term .word ['c'] {}] {}] {} := rfl
+
+/-! ### 4. idempotence; the result carries no names -/
+
+mutual
+/-- **a tree without implicit operations is just cloned** (for every target kind and `add_head`) -/
+theorem relabel_noUnk (k : OpK) (h : Str) : ∀ t : Tree, hasUnk t = false → relabel k h t = t.copy
+  | .term .., _ => rfl
+  | .none _, _ => rfl
+  | .field n e l, ht => by simp [relabel, Tree.copy, relabel_noUnk k h e (by simpa [hasUnk] using ht)]
+  | .group _ e l, ht => by simp [relabel, Tree.copy, relabel_noUnk k h e (by simpa [hasUnk] using ht)]
+  | .approx _ e n l, ht => by simp [relabel, Tree.copy, relabel_noUnk k h e (by simpa [hasUnk] using ht)]
+  | .boost e n l, ht => by simp [relabel, Tree.copy, relabel_noUnk k h e (by simpa [hasUnk] using ht)]
+  | .unary _ e l, ht => by simp [relabel, Tree.copy, relabel_noUnk k h e (by simpa [hasUnk] using ht)]
+  | .orange _ e i l, ht => by simp [relabel, Tree.copy, relabel_noUnk k h e (by simpa [hasUnk] using ht)]
+  | .range a b il ih l, ht => by
+    simp only [hasUnk, Bool.or_eq_false_iff] at ht
+    simp [relabel, Tree.copy, relabel_noUnk k h a ht.1, relabel_noUnk k h b ht.2]
+  | .op .unk xs l, ht => by simp [hasUnk] at ht
+  | .op .and xs l, ht => by
+    simp [relabel, Tree.copy, relabelList_noUnk k h xs (by simpa [hasUnk] using ht)]
+  | .op .or xs l, ht => by
+    simp [relabel, Tree.copy, relabelList_noUnk k h xs (by simpa [hasUnk] using ht)]
+  | .op .bool xs l, ht => by
+    simp [relabel, Tree.copy, relabelList_noUnk k h xs (by simpa [hasUnk] using ht)]
+theorem relabelList_noUnk (k : OpK) (h : Str) :
+    ∀ xs : List Tree, hasUnkList xs = false → relabelList k h xs = Tree.copies xs
+  | [], _ => rfl
+  | x :: r, ht => by
+    simp only [hasUnkList, Bool.or_eq_false_iff] at ht
+    simp [relabelList, Tree.copies, relabel_noUnk k h x ht.1, relabelList_noUnk k h r ht.2]
+end
+
+mutual
+theorem resolveNode_lucene_noUnk (h : Str) :
+    ∀ (t : Tree) (d : Option RStore) (top : RKey) (path : List Nat), hasUnk t = false →
+      (resolveNode .lucene h d top path t).1 = t.copy
+  | .term .., d, top, path, _ => rfl
+  | .none _, d, top, path, _ => rfl
+  | .field n e l, d, top, path, ht => by
+    simp [resolveNode, Tree.copy, resolveNode_lucene_noUnk h e _ _ _ (by simpa [hasUnk] using ht)]
+  | .group k e l, d, top, path, ht => by
+    simp [resolveNode, Tree.copy, resolveNode_lucene_noUnk h e _ _ _ (by simpa [hasUnk] using ht)]
+  | .approx k e n l, d, top, path, ht => by
+    simp [resolveNode, Tree.copy, resolveNode_lucene_noUnk h e _ _ _ (by simpa [hasUnk] using ht)]
+  | .boost e n l, d, top, path, ht => by
+    simp [resolveNode, Tree.copy, resolveNode_lucene_noUnk h e _ _ _ (by simpa [hasUnk] using ht)]
+  | .unary k e l, d, top, path, ht => by
+    simp [resolveNode, Tree.copy, resolveNode_lucene_noUnk h e _ _ _ (by simpa [hasUnk] using ht)]
+  | .orange k e i l, d, top, path, ht => by
+    simp [resolveNode, Tree.copy, resolveNode_lucene_noUnk h e _ _ _ (by simpa [hasUnk] using ht)]
+  | .range a b il ih l, d, top, path, ht => by
+    simp only [hasUnk, Bool.or_eq_false_iff] at ht
+    simp [resolveNode, Tree.copy, resolveNode_lucene_noUnk h a _ _ _ ht.1,
+      resolveNode_lucene_noUnk h b _ _ _ ht.2]
+  | .op .unk xs l, d, top, path, ht => by simp [hasUnk] at ht
+  | .op .and xs l, d, top, path, ht => by
+    simp [resolveNode, Tree.copy, resolveList_lucene_noUnk h xs _ _ _ _ (by simpa [hasUnk] using ht)]
+  | .op .or xs l, d, top, path, ht => by
+    simp [resolveNode, Tree.copy, resolveList_lucene_noUnk h xs _ _ _ _ (by simpa [hasUnk] using ht)]
+  | .op .bool xs l, d, top, path, ht => by
+    simp [resolveNode, Tree.copy, resolveList_lucene_noUnk h xs _ _ _ _ (by simpa [hasUnk] using ht)]
+theorem resolveList_lucene_noUnk (h : Str) :
+    ∀ (xs : List Tree) (d : Option RStore) (top : RKey) (path : List Nat) (i : Nat),
+      hasUnkList xs = false → (resolveList .lucene h d top path i xs).1 = Tree.copies xs
+  | [], d, top, path, i, _ => rfl
+  | x :: r, d, top, path, i, ht => by
+    simp only [hasUnkList, Bool.or_eq_false_iff] at ht
+    simp [resolveList, Tree.copies, resolveNode_lucene_noUnk h x _ _ _ ht.1,
+      resolveList_lucene_noUnk h r _ _ _ _ ht.2]
+end
+
+/-- **a tree without implicit operations is just cloned**, whatever the target -/
+theorem resolve_noUnk (to : ResolveTo) (h : Str) (t : Tree) (ht : hasUnk t = false) :
+    resolve to h t = t.copy := by
+  by_cases hto : to = .lucene
+  · subst hto; exact resolveNode_lucene_noUnk h t none none [] ht
+  · rw [resolve_explicit to hto]; exact relabel_noUnk _ h t ht
+
+mutual
+theorem noNames_resolveNode (to : ResolveTo) (h : Str) :
+    ∀ (t : Tree) (d : Option RStore) (top : RKey) (path : List Nat),
+      C08.noNames (resolveNode to h d top path t).1 = true
+  | .term .., d, top, path => rfl
+  | .none _, d, top, path => rfl
+  | .field n e l, d, top, path => by
+    simp [resolveNode, C08.noNames, Lay.noName, noNames_resolveNode to h e]
+  | .group k e l, d, top, path => by
+    simp [resolveNode, C08.noNames, Lay.noName, noNames_resolveNode to h e]
+  | .approx k e n l, d, top, path => by
+    simp [resolveNode, C08.noNames, Lay.noName, noNames_resolveNode to h e]
+  | .boost e n l, d, top, path => by
+    simp [resolveNode, C08.noNames, Lay.noName, noNames_resolveNode to h e]
+  | .unary k e l, d, top, path => by
+    simp [resolveNode, C08.noNames, Lay.noName, noNames_resolveNode to h e]
+  | .orange k e i l, d, top, path => by
+    simp [resolveNode, C08.noNames, Lay.noName, noNames_resolveNode to h e]
+  | .range a b il ih l, d, top, path => by
+    simp [resolveNode, C08.noNames, Lay.noName, noNames_resolveNode to h a, noNames_resolveNode to h b]
+  | .op k xs l, d, top, path => by
+    cases to <;> cases k <;>
+      simp [resolveNode, C08.noNames, Lay.noName, noNamesList_resolveList _ h xs,
+        noNamesList_addHeads]
+theorem noNamesList_resolveList (to : ResolveTo) (h : Str) :
+    ∀ (xs : List Tree) (d : Option RStore) (top : RKey) (path : List Nat) (i : Nat),
+      C08.noNamesList (resolveList to h d top path i xs).1 = true
+  | [], d, top, path, i => rfl
+  | x :: r, d, top, path, i => by
+    simp [resolveList, C08.noNamesList, noNames_resolveNode to h x, noNamesList_resolveList to h r]
+end
+
+/-- the result carries no attached names, so **cloning it again gives the very same tree** -/
+theorem resolve_copy (to : ResolveTo) (h : Str) (t : Tree) : (resolve to h t).copy = resolve to h t :=
+  (C08.copy_eq_self_iff _).2 (noNames_resolveNode to h t none none [])
+
+/-- **Idempotence** (all four targets): resolving a resolved tree changes nothing. -/
+theorem resolve_idem (to : ResolveTo) (h : Str) (t : Tree) :
+    resolve to h (resolve to h t) = resolve to h t := by
+  rw [resolve_noUnk to h _ (no_unknown_left to h t), resolve_copy]
+
+/-- … even with another target or another `add_head` -/
+theorem resolve_resolve (to to' : ResolveTo) (h h' : Str) (t : Tree) :
+    resolve to' h' (resolve to h t) = resolve to h t := by
+  rw [resolve_noUnk to' h' _ (no_unknown_left to h t), resolve_copy]
+
+/-! ### 5. meaning: resolving to `k` keeps the meaning under "implicit = `k`" -/
+
+/-- how an operand of a `BoolOperation` occurs (Lucene: `+a` must, `-a` must not, else should) -/
+inductive Occur | must | mustNot | should deriving DecidableEq, Repr
+
+def occur : Tree → Occur
+  | .unary .plus _ _ => .must
+  | .unary .prohibit _ _ => .mustNot
+  | _ => .should
+
+/-- Lucene boolean query over the operands' occurrences and truth values (the value of `-a` is
+already the negation of `a`): every must / must-not clause holds, and when there is no must
+clause but there are should clauses, one of them holds -/
+def boolSem (os : List Occur) (vs : List Bool) : Bool :=
+  (os.zip vs).all (fun ov => ov.1 == .should || ov.2)
+    && (os.any (· == .must) || !os.any (· == .should) || (os.zip vs).any (fun ov => ov.1 == .should && ov.2))
+
+def combine : OpK → List Occur → List Bool → Bool
+  | .and, _, vs => vs.all id
+  | .or, _, vs => vs.any id
+  | .bool, os, vs => boolSem os vs
+  | .unk, _, _ => false
+
+mutual
+/-- Boolean meaning of a query on one document: `τ fld text` says whether the document matches the
+leaf `text` in field `fld`; an implicit operation means `dflt`. Ranges, fuzzy / proximity terms and
+open ranges are opaque leaves keyed by their printed form; groups, boosts and `+` are transparent;
+`NOT` and `-` negate. Layout never matters (except inside the printed form of an opaque leaf). -/
+def evalB (dflt : OpK) (τ : Option Str → Str → Bool) (fld : Option Str) : Tree → Bool
+  | .term _ v _ => τ fld v
+  | .none _ => τ fld []
+  | .field n e _ => evalB dflt τ (some n) e
+  | .group _ e _ => evalB dflt τ fld e
+  | .boost e _ _ => evalB dflt τ fld e
+  | .unary .plus e _ => evalB dflt τ fld e
+  | .unary .not e _ => !evalB dflt τ fld e
+  | .unary .prohibit e _ => !evalB dflt τ fld e
+  | .range a b il ih l => τ fld (Tree.body .norm (.range a b il ih l))
+  | .approx k e n l => τ fld (Tree.body .norm (.approx k e n l))
+  | .orange k e i l => τ fld (Tree.body .norm (.orange k e i l))
+  | .op k xs _ => combine (if k == .unk then dflt else k) (xs.map occur) (evalBs dflt τ fld xs)
+def evalBs (dflt : OpK) (τ : Option Str → Str → Bool) (fld : Option Str) : List Tree → List Bool
+  | [] => []
+  | x :: r => evalB dflt τ fld x :: evalBs dflt τ fld r
+end
+
+mutual
+/-- the opaque leaves (ranges, fuzzy / proximity, open ranges) contain no implicit operation —
+always so for parsed trees, whose leaves contain no operation at all -/
+def leavesResolved : Tree → Bool
+  | .term .. => true
+  | .none _ => true
+  | .field _ e _ => leavesResolved e
+  | .group _ e _ => leavesResolved e
+  | .boost e _ _ => leavesResolved e
+  | .unary _ e _ => leavesResolved e
+  | .range a b _ _ _ => !hasUnk a && !hasUnk b
+  | .approx _ e _ _ => !hasUnk e
+  | .orange _ e _ _ => !hasUnk e
+  | .op _ xs _ => leavesResolvedList xs
+def leavesResolvedList : List Tree → Bool
+  | [] => true
+  | x :: r => leavesResolved x && leavesResolvedList r
+end
+
+theorem occur_setLay (t : Tree) (l : Lay) : occur (t.setLay l) = occur t := by
+  cases t <;> try rfl
+  rename_i k _ _; cases k <;> rfl
+
+theorem occur_relabel (k : OpK) (h : Str) : ∀ t : Tree, occur (relabel k h t) = occur t
+  | .term .. => rfl
+  | .none _ => rfl
+  | .field .. => by simp [relabel, occur]
+  | .group .. => by simp [relabel, occur]
+  | .approx .. => by simp [relabel, occur]
+  | .boost .. => by simp [relabel, occur]
+  | .unary k' .. => by cases k' <;> simp [relabel, occur]
+  | .orange .. => by simp [relabel, occur]
+  | .range .. => by simp [relabel, occur]
+  | .op .unk .. => by simp [relabel, occur]
+  | .op .and .. => by simp [relabel, occur]
+  | .op .or .. => by simp [relabel, occur]
+  | .op .bool .. => by simp [relabel, occur]
+
+theorem evalB_setLay (dflt : OpK) (τ : Option Str → Str → Bool) (fld : Option Str) (t : Tree) (l : Lay) :
+    evalB dflt τ fld (t.setLay l) = evalB dflt τ fld t := by
+  cases t <;> simp [Tree.setLay, evalB, Tree.body]
+  rename_i k _ _; cases k <;> simp [evalB]
+
+theorem map_occur_addHeads (h : Str) : ∀ xs : List Tree, (addHeads h xs).map occur = xs.map occur
+  | [] => rfl
+  | x :: r => by simp [addHeads, Tree.setHead, occur_setLay, Function.comp_def]
+
+theorem evalBs_eq_map (dflt : OpK) (τ : Option Str → Str → Bool) (fld : Option Str) :
+    ∀ xs, evalBs dflt τ fld xs = xs.map (evalB dflt τ fld)
+  | [] => rfl
+  | x :: r => by simp [evalBs, evalBs_eq_map dflt τ fld r]
+
+theorem evalBs_addHeads (dflt : OpK) (τ : Option Str → Str → Bool) (fld : Option Str) (h : Str) :
+    ∀ xs : List Tree, evalBs dflt τ fld (addHeads h xs) = evalBs dflt τ fld xs
+  | [] => rfl
+  | x :: r => by
+    simp [addHeads, evalBs_eq_map, Tree.setHead, evalB_setLay, Function.comp_def]
+
+mutual
+theorem evalB_relabel (k : OpK) (τ : Option Str → Str → Bool) (h : Str) :
+    ∀ (t : Tree) (fld : Option Str), leavesResolved t = true →
+      evalB k τ fld (relabel k h t) = evalB k τ fld t
+  | .term .., fld, _ => rfl
+  | .none _, fld, _ => rfl
+  | .field n e l, fld, ht => by
+    simp [relabel, evalB, evalB_relabel k τ h e _ (by simpa [leavesResolved] using ht)]
+  | .group _ e l, fld, ht => by
+    simp [relabel, evalB, evalB_relabel k τ h e _ (by simpa [leavesResolved] using ht)]
+  | .boost e n l, fld, ht => by
+    simp [relabel, evalB, evalB_relabel k τ h e _ (by simpa [leavesResolved] using ht)]
+  | .unary .plus e l, fld, ht => by
+    simp [relabel, evalB, evalB_relabel k τ h e _ (by simpa [leavesResolved] using ht)]
+  | .unary .not e l, fld, ht => by
+    simp [relabel, evalB, evalB_relabel k τ h e _ (by simpa [leavesResolved] using ht)]
+  | .unary .prohibit e l, fld, ht => by
+    simp [relabel, evalB, evalB_relabel k τ h e _ (by simpa [leavesResolved] using ht)]
+  | .approx k' e n l, fld, ht => by
+    simp only [leavesResolved, Bool.not_eq_true'] at ht
+    simp [relabel, evalB, Tree.body, relabel_noUnk k h e ht, (C08.copy_full e .norm).1]
+  | .orange k' e i l, fld, ht => by
+    simp only [leavesResolved, Bool.not_eq_true'] at ht
+    simp [relabel, evalB, Tree.body, relabel_noUnk k h e ht, (C08.copy_full e .norm).1]
+  | .range a b il ih l, fld, ht => by
+    simp only [leavesResolved, Bool.and_eq_true, Bool.not_eq_true'] at ht
+    simp [relabel, evalB, Tree.body, relabel_noUnk k h a ht.1, relabel_noUnk k h b ht.2,
+      (C08.copy_full a .norm).1, (C08.copy_full b .norm).1]
+  | .op .unk xs l, fld, ht => by
+    simp only [relabel, evalB, ite_self, map_occur_addHeads, evalBs_addHeads, beq_self_eq_true, if_true]
+    rw [evalBs_relabelList k τ h xs fld (by simpa [leavesResolved] using ht), relabelList_eq_map,
+      List.map_map]
+    congr 1
+    apply List.map_congr_left; intro c _; exact occur_relabel k h c
+  | .op .and xs l, fld, ht => by
+    simp only [relabel, evalB]
+    rw [evalBs_relabelList k τ h xs fld (by simpa [leavesResolved] using ht), relabelList_eq_map,
+      List.map_map]
+    congr 1
+    apply List.map_congr_left; intro c _; exact occur_relabel k h c
+  | .op .or xs l, fld, ht => by
+    simp only [relabel, evalB]
+    rw [evalBs_relabelList k τ h xs fld (by simpa [leavesResolved] using ht), relabelList_eq_map,
+      List.map_map]
+    congr 1
+    apply List.map_congr_left; intro c _; exact occur_relabel k h c
+  | .op .bool xs l, fld, ht => by
+    simp only [relabel, evalB]
+    rw [evalBs_relabelList k τ h xs fld (by simpa [leavesResolved] using ht), relabelList_eq_map,
+      List.map_map]
+    congr 1
+    apply List.map_congr_left; intro c _; exact occur_relabel k h c
+theorem evalBs_relabelList (k : OpK) (τ : Option Str → Str → Bool) (h : Str) :
+    ∀ (xs : List Tree) (fld : Option Str), leavesResolvedList xs = true →
+      evalBs k τ fld (relabelList k h xs) = evalBs k τ fld xs
+  | [], fld, _ => rfl
+  | x :: r, fld, ht => by
+    simp only [leavesResolvedList, Bool.and_eq_true] at ht
+    simp [relabelList, evalBs, evalB_relabel k τ h x fld ht.1, evalBs_relabelList k τ h r fld ht.2]
+end
+
+/-- **Resolving to AND / OR / BoolOperation keeps the meaning of the query under the reading
+"an implicit operation is a `k`-operation"**, for every document (`τ`), every field context and
+every `add_head` (provided the opaque leaves contain no implicit operation). -/
+theorem resolve_meaning (to : ResolveTo) (hto : to ≠ .lucene) (τ : Option Str → Str → Bool) (h : Str)
+    (fld : Option Str) (t : Tree) (ht : leavesResolved t = true) :
+    evalB (opKOf to) τ fld (resolve to h t) = evalB (opKOf to) τ fld t := by
+  rw [resolve_explicit to hto]; exact evalB_relabel _ τ h t fld ht
+
+mutual
+/-- … and once resolved, the reading of implicit operations no longer matters -/
+theorem evalB_noUnk_dflt (k k' : OpK) (τ : Option Str → Str → Bool) : ∀ (t : Tree) (fld : Option Str),
+    hasUnk t = false → evalB k τ fld t = evalB k' τ fld t
+  | .term .., fld, _ => rfl
+  | .none _, fld, _ => rfl
+  | .field n e l, fld, ht => by
+    simp [evalB, evalB_noUnk_dflt k k' τ e _ (by simpa [hasUnk] using ht)]
+  | .group _ e l, fld, ht => by
+    simp [evalB, evalB_noUnk_dflt k k' τ e _ (by simpa [hasUnk] using ht)]
+  | .boost e n l, fld, ht => by
+    simp [evalB, evalB_noUnk_dflt k k' τ e _ (by simpa [hasUnk] using ht)]
+  | .unary .plus e l, fld, ht => by
+    simp [evalB, evalB_noUnk_dflt k k' τ e _ (by simpa [hasUnk] using ht)]
+  | .unary .not e l, fld, ht => by
+    simp [evalB, evalB_noUnk_dflt k k' τ e _ (by simpa [hasUnk] using ht)]
+  | .unary .prohibit e l, fld, ht => by
+    simp [evalB, evalB_noUnk_dflt k k' τ e _ (by simpa [hasUnk] using ht)]
+  | .approx .., fld, _ => by simp [evalB]
+  | .orange .., fld, _ => by simp [evalB]
+  | .range .., fld, _ => by simp [evalB]
+  | .op .unk xs l, fld, ht => by simp [hasUnk] at ht
+  | .op .and xs l, fld, ht => by
+    simp [evalB, evalBs_noUnk_dflt k k' τ xs fld (by simpa [hasUnk] using ht)]
+  | .op .or xs l, fld, ht => by
+    simp [evalB, evalBs_noUnk_dflt k k' τ xs fld (by simpa [hasUnk] using ht)]
+  | .op .bool xs l, fld, ht => by
+    simp [evalB, evalBs_noUnk_dflt k k' τ xs fld (by simpa [hasUnk] using ht)]
+theorem evalBs_noUnk_dflt (k k' : OpK) (τ : Option Str → Str → Bool) :
+    ∀ (xs : List Tree) (fld : Option Str), hasUnkList xs = false →
+      evalBs k τ fld xs = evalBs k' τ fld xs
+  | [], fld, _ => rfl
+  | x :: r, fld, ht => by
+    simp only [hasUnkList, Bool.or_eq_false_iff] at ht
+    simp [evalBs, evalB_noUnk_dflt k k' τ x fld ht.1, evalBs_noUnk_dflt k k' τ r fld ht.2]
+end
+
+/-- `a b` resolved to OR means `a OR b`: true on a document matching only `b` -/
+example :
+    evalB .or (fun _ v => v == ['b']) none
+      (resolve .or [] (.op .unk [.term .word ['a'] {}, .term .word ['b'] {}] {})) = true := by decide
+
+/-! ### 6. layout: only the heads of the second and later operands of resolved operations change -/
+
+def isUnkOp : Tree → Bool
+  | .op .unk _ _ => true
+  | _ => false
+
+/-- the node at path `p` of `t` is a second or later operand of an `UnknownOperation` -/
+def headAdded : Tree → List Nat → Bool
+  | _, [] => false
+  | t, [i] => isUnkOp t && decide (1 ≤ i)
+  | t, i :: j :: r => match t.children[i]? with
+    | some c => headAdded c (j :: r)
+    | none => false
+
+/-- put `h` in front of the head, or not -/
+def adj (h : Str) (b : Bool) (x : Tree) : Tree := if b then x.setHead (h ++ x.head) else x
+
+theorem children_setLay (t : Tree) (l : Lay) : (t.setLay l).children = t.children := by
+  cases t <;> rfl
+
+theorem adj_at_cons (h : Str) (b : Bool) (x : Tree) (i : Nat) (r : List Nat) :
+    (adj h b x).at? (i :: r) = x.at? (i :: r) := by
+  cases b <;> simp [adj, Tree.at?, Tree.setHead, children_setLay]
+
+theorem addHeads_getElem? (h : Str) : ∀ (ys : List Tree) (i : Nat),
+    (addHeads h ys)[i]? = (ys[i]?).map (adj h (decide (1 ≤ i)))
+  | [], i => by simp [addHeads]
+  | y :: r, 0 => by simp [addHeads, adj]
+  | y :: r, i + 1 => by
+    simp only [addHeads, List.getElem?_cons_succ, List.getElem?_map]
+    cases r[i]? <;> simp [adj]
+
+/-- the children of the result: the results for the children, with `h` in front of the second and
+later ones when the node is an implicit operation -/
+theorem relabel_children (k : OpK) (h : Str) (t : Tree) (i : Nat) :
+    (relabel k h t).children[i]?
+      = (t.children[i]?).map (fun c => adj h (isUnkOp t && decide (1 ≤ i)) (relabel k h c)) := by
+  match t with
+  | .term .. => simp [relabel, Tree.children]
+  | .none _ => simp [relabel, Tree.children]
+  | .field .. => cases i <;> simp [relabel, Tree.children, isUnkOp, adj]
+  | .group .. => cases i <;> simp [relabel, Tree.children, isUnkOp, adj]
+  | .approx .. => cases i <;> simp [relabel, Tree.children, isUnkOp, adj]
+  | .boost .. => cases i <;> simp [relabel, Tree.children, isUnkOp, adj]
+  | .unary .. => cases i <;> simp [relabel, Tree.children, isUnkOp, adj]
+  | .orange .. => cases i <;> simp [relabel, Tree.children, isUnkOp, adj]
+  | .range .. =>
+    match i with
+    | 0 => simp [relabel, Tree.children, isUnkOp, adj]
+    | 1 => simp [relabel, Tree.children, isUnkOp, adj]
+    | i + 2 => simp [relabel, Tree.children, isUnkOp, adj]
+  | .op .unk xs l =>
+    simp only [relabel, Tree.children, isUnkOp, addHeads_getElem?, relabelList_eq_map,
+      List.getElem?_map, Bool.true_and, Option.map_map]
+    rfl
+  | .op .and xs l =>
+    simp [relabel, Tree.children, isUnkOp, relabelList_eq_map, adj]
+  | .op .or xs l =>
+    simp [relabel, Tree.children, isUnkOp, relabelList_eq_map, adj]
+  | .op .bool xs l =>
+    simp [relabel, Tree.children, isUnkOp, relabelList_eq_map, adj]
+
+/-- **Same shape, node by node**: the result has exactly the paths of the original, and the node
+at a path is the result for the node there — with `h` in front of its head exactly when it is a
+second or later operand of a resolved operation. -/
+theorem relabel_at (k : OpK) (h : Str) : ∀ (p : List Nat) (t : Tree),
+    (relabel k h t).at? p = (t.at? p).map (fun n => adj h (headAdded t p) (relabel k h n))
+  | [], t => by simp [Tree.at?, headAdded, adj]
+  | [i], t => by
+    simp only [Tree.at?, relabel_children, headAdded]
+    cases t.children[i]? <;> simp [Bool.and_comm]
+  | i :: j :: r, t => by
+    rw [Tree.at?, relabel_children]
+    conv => rhs; rw [Tree.at?, headAdded]
+    cases hc : t.children[i]? with
+    | none => simp
+    | some c =>
+      simp only [Option.map_some, adj_at_cons]
+      exact relabel_at k h (j :: r) c
+
+theorem relabel_lay (k : OpK) (h : Str) (t : Tree) : (relabel k h t).lay = t.lay.noName := by
+  match t with
+  | .op .unk .. | .op .and .. | .op .or .. | .op .bool .. => simp [relabel, Tree.lay]
+  | .term .. | .none _ | .field .. | .group .. | .approx .. | .boost .. | .unary .. | .orange ..
+  | .range .. => simp [relabel, Tree.lay]
+
+theorem lay_setLay (t : Tree) (l : Lay) : (t.setLay l).lay = l := by cases t <;> rfl
+
+/-- **Layout**: at every path, tail, pos and size are those of the original node, the name is
+dropped, and the head is the original one — with `add_head` in front exactly for the second and
+later operands of resolved operations. -/
+theorem relabel_layout (k : OpK) (h : Str) (t n : Tree) (p : List Nat) (hn : t.at? p = some n) :
+    ∃ n', (relabel k h t).at? p = some n' ∧ n'.tail = n.tail ∧ n'.lay.pos = n.lay.pos
+      ∧ n'.lay.size = n.lay.size ∧ n'.lay.name = none
+      ∧ n'.head = (if headAdded t p then h ++ n.head else n.head) := by
+  refine ⟨_, by rw [relabel_at, hn]; rfl, ?_⟩
+  cases headAdded t p <;>
+    simp [adj, Tree.setHead, Tree.head, Tree.tail, lay_setLay, relabel_lay, Lay.noName]
+
+/-- the class of a node changes only for the resolved operations -/
+theorem relabel_className (k : OpK) (h : Str) (t : Tree) (ht : isUnkOp t = false) :
+    (relabel k h t).className = t.className := by
+  match t with
+  | .op .unk .. => simp [isUnkOp] at ht
+  | .op .and .. | .op .or .. | .op .bool .. => simp [relabel, Tree.className]
+  | .term k' .. | .group k' .. | .approx k' .. | .unary k' .. | .orange k' .. =>
+    cases k' <;> simp [relabel, Tree.className]
+  | .none _ | .field .. | .boost .. | .range .. => simp [relabel, Tree.className]
+
+theorem setHead_head (t : Tree) : t.setHead ([] ++ t.head) = t := by cases t <;> rfl
+
+theorem addHeads_nil : ∀ xs : List Tree, addHeads [] xs = xs
+  | [] => rfl
+  | x :: r => by
+    simp only [addHeads, List.cons.injEq, true_and]
+    conv => rhs; rw [← List.map_id r]
+    apply List.map_congr_left; intro c _; exact setHead_head c
+
+mutual
+/-- **with an empty `add_head` the result is the clone of the original up to the kind of the
+resolved operations**: no layout changes at all -/
+theorem relabel_nil (k : OpK) (hk : k ≠ .bool) : ∀ t : Tree,
+    eraseOpKind (relabel k [] t) = eraseOpKind t.copy
+  | .term .. => rfl
+  | .none _ => rfl
+  | .field n e l => by simp [relabel, Tree.copy, eraseOpKind, relabel_nil k hk e]
+  | .group _ e l => by simp [relabel, Tree.copy, eraseOpKind, relabel_nil k hk e]
+  | .approx _ e n l => by simp [relabel, Tree.copy, eraseOpKind, relabel_nil k hk e]
+  | .boost e n l => by simp [relabel, Tree.copy, eraseOpKind, relabel_nil k hk e]
+  | .unary _ e l => by simp [relabel, Tree.copy, eraseOpKind, relabel_nil k hk e]
+  | .orange _ e i l => by simp [relabel, Tree.copy, eraseOpKind, relabel_nil k hk e]
+  | .range a b il ih l => by
+    simp [relabel, Tree.copy, eraseOpKind, relabel_nil k hk a, relabel_nil k hk b]
+  | .op .unk xs l => by
+    simp only [relabel, Tree.copy, eraseOpKind, addHeads_nil, relabelList_nil k hk xs]
+    cases k <;> simp_all [eraseK]
+  | .op .and xs l => by simp [relabel, Tree.copy, eraseOpKind, relabelList_nil k hk xs]
+  | .op .or xs l => by simp [relabel, Tree.copy, eraseOpKind, relabelList_nil k hk xs]
+  | .op .bool xs l => by simp [relabel, Tree.copy, eraseOpKind, relabelList_nil k hk xs]
+theorem relabelList_nil (k : OpK) (hk : k ≠ .bool) : ∀ xs : List Tree,
+    eraseOpKinds (relabelList k [] xs) = eraseOpKinds (Tree.copies xs)
+  | [] => rfl
+  | x :: r => by
+    simp [relabelList, Tree.copies, eraseOpKinds, relabel_nil k hk x, relabelList_nil k hk r]
+end
+
+/-- the resolved tree is equal to the original up to the kinds of operations (`eqv` after
+identifying AND / OR / implicit) when no head is added — so it prints the same up to the operators -/
+example : resolve .and [' '] (.op .unk [.term .word ['a'] {}, .term .word ['b'] {}, .term .word ['c'] { head := ['\t'] }] {})
+    = .op .and [.term .word ['a'] {}, .term .word ['b'] { head := [' '] },
+        .term .word ['c'] { head := [' ', '\t'] }] {} := rfl
+
+/-! ### equality up to the kind of operations -/
+
+theorem content_setLay (t : Tree) (l : Lay) : C09.content (t.setLay l) = C09.content t := by
+  cases t <;> simp [Tree.setLay, C09.content]
+
+theorem contents_eq_map : ∀ xs, C09.contents xs = xs.map C09.content
+  | [] => rfl
+  | x :: r => by simp [C09.contents, contents_eq_map r]
+
+theorem contents_addHeads (h : Str) : ∀ xs, C09.contents (addHeads h xs) = C09.contents xs
+  | [] => rfl
+  | x :: r => by
+    simp [addHeads, contents_eq_map, Tree.setHead, content_setLay, Function.comp_def]
+
+mutual
+theorem content_erase_relabel (k : OpK) (hk : k ≠ .bool) (h : Str) : ∀ t : Tree,
+    C09.content (eraseOpKind (relabel k h t)) = C09.content (eraseOpKind t)
+  | .term .. => rfl
+  | .none _ => rfl
+  | .field n e l => by simp [relabel, eraseOpKind, C09.content, content_erase_relabel k hk h e]
+  | .group _ e l => by simp [relabel, eraseOpKind, C09.content, content_erase_relabel k hk h e]
+  | .approx _ e n l => by simp [relabel, eraseOpKind, C09.content, content_erase_relabel k hk h e]
+  | .boost e n l => by simp [relabel, eraseOpKind, C09.content, content_erase_relabel k hk h e]
+  | .unary _ e l => by simp [relabel, eraseOpKind, C09.content, content_erase_relabel k hk h e]
+  | .orange _ e i l => by simp [relabel, eraseOpKind, C09.content, content_erase_relabel k hk h e]
+  | .range a b il ih l => by
+    simp [relabel, eraseOpKind, C09.content, content_erase_relabel k hk h a,
+      content_erase_relabel k hk h b]
+  | .op .unk xs l => by
+    simp only [relabel, eraseOpKind, C09.content, eraseOpKinds_addHeads, contents_addHeads,
+      contents_erase_relabelList k hk h xs]
+    cases k <;> simp_all [eraseK]
+  | .op .and xs l => by simp [relabel, eraseOpKind, C09.content, contents_erase_relabelList k hk h xs]
+  | .op .or xs l => by simp [relabel, eraseOpKind, C09.content, contents_erase_relabelList k hk h xs]
+  | .op .bool xs l => by simp [relabel, eraseOpKind, C09.content, contents_erase_relabelList k hk h xs]
+theorem contents_erase_relabelList (k : OpK) (hk : k ≠ .bool) (h : Str) : ∀ xs : List Tree,
+    C09.contents (eraseOpKinds (relabelList k h xs)) = C09.contents (eraseOpKinds xs)
+  | [] => rfl
+  | x :: r => by
+    simp [relabelList, eraseOpKinds, C09.contents, content_erase_relabel k hk h x,
+      contents_erase_relabelList k hk h r]
+end
+
+/-- **Resolving to AND / OR / lucene gives a tree equal (`==`) to the original once AND, OR and
+implicit operations are identified**: same node types, values, names, flags, numbers and children
+in the same order everywhere; only kinds of (formerly implicit) operations and layout may differ. -/
+theorem resolve_eqv_upto_kind (to : ResolveTo) (hto : to ≠ .bool) (h : Str) (t : Tree) :
+    (eraseOpKind (resolve to h t)).eqv (eraseOpKind t) = true := by
+  rw [C09.eqv_iff_content]
+  by_cases hl : to = .lucene
+  · subst hl
+    rw [resolve_lucene_skeleton]; exact content_erase_relabel .and (by decide) h t
+  · rw [resolve_explicit to hl]
+    exact content_erase_relabel _ (by cases to <;> simp_all [opKOf]) h t
+
+/-- (for `resolve_to=BoolOperation` the same holds with implicit identified with BoolOperation;
+stated directly: the result is `relabel .bool`, see `resolve_explicit`) -/
+example : (eraseOpKind (resolve .lucene [' '] (.op .unk [.term .word ['a'] {}, .term .word ['b'] {}] {}))).eqv
+    (eraseOpKind (.op .unk [.term .word ['a'] {}, .term .word ['b'] {}] {})) = true := by decide
+
 end Luqum.Props.C10
